@@ -159,4 +159,10 @@ def r20_4(cx):
     cx.check(len(dflt) == 1 and dflt[0]['derived'], 'default-derived', None, OI, 'Default for OwningIovec is derived (empty deque, no cache, no placeholders)', fail_detail='Default for OwningIovec is not the derive')
 
 
-RULES = [('R20.1', r20_1), ('R20.2', r20_2), ('R20.3', r20_3), ('R20.4', r20_4)]
+def r20_5(cx):
+    """a clone keeps alive what it points to: zero-count pins are never re-pointed, overwritten or dropped early (R5.7, R5.8)"""
+    from . import c05
+    compose(cx, [('R5.7', c05.r5_7), ('R5.8', c05.r5_8)])
+
+
+RULES = [('R20.1', r20_1), ('R20.2', r20_2), ('R20.3', r20_3), ('R20.4', r20_4), ('R20.5', r20_5)]
